@@ -98,6 +98,12 @@ theorem gen_skel_pool :
     poolPopFlags = [true, true, false] ∧ poolTryPopFlags = [true, false] ∧ poolPushFlags = [true, false, true] ∧
     poolQueueFactor = 2 := by decide
 
+/-- the two repaired shapes stay repaired: `ObjectPool<T>::Deleter::operator=(Deleter&&)` returns `*this`
+(it had no return statement: move-assigning a pooled handle was undefined behaviour), and
+`BatchPageAllocator::allocate` sizes the buffer of a default-constructed thread slot before the first refill
+(it wrote `_batch_size` pointers through a null pointer).  Witnesses: harness modes `handles`, `batchdefault`. -/
+theorem gen_repaired_shapes : deleterAssignReturnsThis = 1 ∧ batchLazyBuffer = 1 := by decide
+
 /-! ## Single owner, conservation -/
 
 /-- **pages_single_owner.**  In every reachable state the list of all token occurrences, place by place
